@@ -53,11 +53,36 @@ fn check_desc(rep: &Report, c: &DescCase, thorough: bool, cen: &mut Census) {
     bump(cen, "sane_descriptors");
     let hl = c.hash_labels();
     let dsx = c.d.sexpr();
+    // sh(wsh(X)) adds a scriptSig and nothing else: its non-malleable satisfaction must be the one of
+    // wsh(X) (whose uniqueness the search below decides), and it must refuse where wsh(X) refuses
+    let twin: Option<DescCase> = match &c.d {
+        D::Wsh(t) => crate::sat::prepare(&D::ShWsh(t.clone()), c.form).ok(),
+        _ => None,
+    };
     for w in worlds(&c.keys, &hl, &c.afters, &c.olders, thorough) {
         let spend = make_spend(c.spk.clone(), w.locktime, w.sequence);
         let sat = WorldSat { world: &w, spend: &spend, sign: &c.sign, schnorr_all: false, lie_locks: false, cap: crate::world::SignCap::All };
         bump(cen, "evaluations");
-        let (witness, script_sig) = match guard(|| c.desc.get_satisfaction(&sat)) {
+        let r0 = guard(|| c.desc.get_satisfaction(&sat));
+        if let (Some(tw), Ok(r0)) = (&twin, &r0) {
+            let r2 = guard(|| tw.desc.get_satisfaction(&sat));
+            let same = match (r0, &r2) {
+                (Ok((w0, _)), Ok(Ok((w2, _)))) => w0 == w2,
+                (Err(_), Ok(Err(_))) => true,
+                _ => false,
+            };
+            if same {
+                bump(cen, "sh_wsh_twins_equal");
+            } else {
+                rep.violation(Violation {
+                    key: format!("C03|sh-wsh-twin|{}|{}", dsx, w.short()),
+                    class: "sh-wsh-nonmall-differs-from-wsh".into(),
+                    what: format!("the non-malleable satisfier treats sh(wsh(X)) differently from wsh(X): wsh is_ok = {}, sh(wsh) is_ok = {:?}", r0.is_ok(), r2.as_ref().map(|x| x.is_ok())),
+                    case: json!({"desc": c.desc.to_string(), "model": dsx, "world": w.json()}),
+                });
+            }
+        }
+        let (witness, script_sig) = match r0 {
             Ok(Ok(x)) => x,
             _ => {
                 bump(cen, "nonmall_refused");
